@@ -106,6 +106,23 @@ template <typename T> void resolver(cocls::promise<T> &p, int me, int action) {
         bool ok = co.start(p);
         if (ok) won(K_VALUE, std::is_void_v<T> ? 0 : v);
         break; }
+    case 8: {   // bind(): moving the promise into the closure is the claim, calling the closure resolves
+        if constexpr (std::is_reference_v<T>) { resolver<T>(p, me, 1); return; }      // (binding decays its arguments: a bound reference would refer to the closure's copy)
+        else {
+            dsim::cell_add(ATTEMPTS, 1);
+            auto fn = [&] { if constexpr (std::is_void_v<T>) return p.bind(); else if constexpr (std::is_same_v<T, std::unique_ptr<long>>) return p.bind(std::make_unique<long>(v)); else return p.bind(v); }();
+            bool ok = fn();
+            if (ok) won(K_VALUE, std::is_void_v<T> ? 0 : v);
+        }
+        break; }
+    case 9: {   // promise_with_default: a promise that resolves with its default value when it dies unresolved
+        if constexpr (std::is_void_v<T> || std::is_reference_v<T>) { resolver<T>(p, me, 5); return; }
+        else {
+            dsim::cell_add(ATTEMPTS, 1);
+            auto dying = [&] { if constexpr (std::is_same_v<T, std::unique_ptr<long>>) return cocls::promise_with_default<T>(std::move(p), std::make_unique<long>(v)); else return cocls::promise_with_default<T>(std::move(p), v); }();
+            if (dying) won(K_VALUE, v);
+        }
+        break; }
     }
 }
 
@@ -113,7 +130,7 @@ template <typename T> void run() {
     int nres = 2 + dsim::choose(3);
     int nwait = dsim::choose(3);
     int act[4], wk[2];
-    for (int i = 0; i < nres; i++) act[i] = dsim::choose(8);
+    for (int i = 0; i < nres; i++) act[i] = dsim::choose(10);
     for (int i = 0; i < nwait; i++) wk[i] = dsim::choose(4);
     dsim::plan_note("resolvers=%d actions=", nres);
     for (int i = 0; i < nres; i++) dsim::plan_note("%d", act[i]);
